@@ -23,14 +23,16 @@ def build_ae(calls, max_pdu=16384):
     from pynetdicom2 import applicationentity as aem
     ae = aem.ClientAE('LOCALAET', supported_ts=TS[:2], max_pdu_length=max_pdu)
     scu = []
-    for kind, classes in calls:
+    for n, (kind, classes) in enumerate(calls):
         if kind == 'scu':
-            ae.add_scu(service_for(classes))
+            if n % 2 and classes:
+                # the documented override: the service's own list is NOT what gets configured
+                ae.add_scu(service_for(['1.2.826.0.1.3680043.9.9.%d' % n, '1.2.826.0.1.3680043.9.8.%d' % n]), sop_classes=list(classes))
+            else:
+                ae.add_scu(service_for(classes))
             scu += classes
-        else:                                   # add_scp of the full AE, without its listening socket
-            svc = service_for(classes)
-            ae.supported_scp.update({u: svc for u in classes})
-            ae.update_context_def_list(classes, False)
+        else:                                   # the real add_scp of the full AE, on an entity without listening socket
+            aem.AE.add_scp(ae, service_for(classes))
     return ae, scu
 
 
